@@ -17,6 +17,7 @@ pub mod c16;
 pub mod c17;
 pub mod c18;
 pub mod c19;
+pub mod c20;
 pub mod script;
 pub mod util;
 
@@ -41,6 +42,7 @@ pub fn gen(prop: &str, tier: &str, seed: u64) -> Gen {
         "C17" => c17::gen(tier, seed),
         "C18" => c18::gen(tier, seed),
         "C19" => c19::gen(tier, seed),
+        "C20" => c20::gen(tier, seed),
         _ => panic!("unknown property {}", prop),
     }
 }
@@ -63,6 +65,7 @@ pub fn run(prop: &str, case: &Term) -> Term {
         "C17" => c17::run(case),
         "C18" => c18::run(case),
         "C19" => c19::run(case),
+        "C20" => c20::run(case),
         _ => panic!("unknown property {}", prop),
     }
 }
